@@ -398,7 +398,7 @@ class C15B(EngineBase):
         r = streams.get("config")
         depth = r.choice([1, 1, 2, 3])
         exitk = r.choice(["crash", "crash", "crash", "exception", "return", "break", "normal",
-                          "generator_close", "decorator", "decorator_exception"])
+                          "generator_close", "decorator", "decorator_exception", "reuse_cm"])
         return {
             "outer": r.choice(MODES),
             "outer_none": r.random() < 0.3,
@@ -525,6 +525,22 @@ class C15B(EngineBase):
                     if cfg["inner_set"] is None and get() != modes[level]:
                         checks.append(("mode-inside-block", f"level {level}: suspended generator"))
                     g.close()
+                elif cfg["exit"] == "reuse_cm" and level == len(modes) - 1:
+                    # one manager object entered twice: whatever the second
+                    # entry does (contextlib refuses it), the default survives
+                    cm = core.sr.default_tensordot_mode(modes[level])
+                    with cm:
+                        run_body()
+                    if cfg["inner_set"] is None and get() != before:
+                        checks.append(("mode-restored-on-exit", f"reuse: {get()!r} after first use, was {before!r}"))
+                    mid = get()
+                    try:
+                        with cm:
+                            run_body()
+                    except (RuntimeError, AttributeError, TypeError):
+                        pass
+                    if cfg["inner_set"] is None and get() != mid:
+                        checks.append(("mode-restored-on-exit", f"reuse: {get()!r} after second use, was {mid!r}"))
                 elif cfg["exit"] in ("decorator", "decorator_exception") and level == len(modes) - 1:
                     @core.sr.default_tensordot_mode(modes[level])
                     def decorated():
@@ -912,6 +928,16 @@ class C15C(EngineBase):
                         only_instruction_codes=only)
         baton.record_sites = record_sites
         baton.run()
+        # after all threads have joined: the same programs once more,
+        # sequentially, on the very same shared arrays and warm hidden state;
+        # a race that only damaged memoised state shows up here
+        post = {}
+        if not record_sites:
+            for tid in tids:
+                res = []
+                self._make_fn(st.tsteps[tid], _collections.ChainMap({}, shared), res)()
+                post[tid] = res
+        self._post = post
         return baton, shared, before, {tid: results[tid] for tid in tids}
 
     def _policy(self, st, hot_events=None, sites=None, rep=0):
@@ -1058,6 +1084,23 @@ class C15C(EngineBase):
                         self.report(st, "threads-equal-sequential", op,
                                     f"thread {tid} step {k}: differs from sequential: {why}", ["value"])
             st.log.add("thread-done", [tid, [g[0] for g in got]])
+        for tid in sorted(getattr(self, "_post", {})):
+            got = self._post[tid]
+            exp = ref[tid]
+            for k, (g, e) in enumerate(zip(got, exp)):
+                op = st.tsteps[tid][k]["op"]
+                if g[0] != e[0] or (g[0] == "raised" and g[1] != e[1]):
+                    self.report(st, "after-join-equals-sequential", op,
+                                f"after the threads joined, thread {tid}'s step {k} run again sequentially: "
+                                f"{g[:3] if g[0] != 'ok' else 'ok'} but the reference {e[:2] if e[0] != 'ok' else 'ok'}",
+                                ["raise-mismatch"])
+                elif g[0] == "ok":
+                    st.stats["oracle.post_join_compared"] += 1
+                    why = S.snap_close(e[1], S.snap(g[1]))
+                    if why:
+                        self.report(st, "after-join-equals-sequential", op,
+                                    f"after the threads joined, thread {tid}'s step {k} run again "
+                                    f"sequentially differs from the reference: {why}", ["value"])
 
     # the schedule is part of the replay file
     def _outcome(self, st, violation):
